@@ -40,7 +40,7 @@ NumPy/Python upgrades, the LAST chunk/slice/scale, integer widths, defaults),
 the sixth was told to imagine a sampling checker and evade it (magnitudes
 above 2^16/2^24/2^31, NaN and infinities, big-endian files, `python -O`, exit
 without close, symlinks, glob characters, servers without HEAD), and the
-seventh (fourteen properties, two changes each; the second batch of six was told to stay inside the code the property names) was told what that checker by now
+seventh (all twenty properties, two changes each; the second and third batches were told to stay inside the code the property names) was told what that checker by now
 includes and asked for two cooperating sites, histories of three or more
 steps, exact magnitudes or counts and three-way option interactions. After the two
 repairs of `/repo` made on the way (69c193f, 9262957) the older patches that
@@ -65,9 +65,9 @@ need 300 MB of data; `"tier_needed": "thorough"` in their meta.json), five
 candidates were rejected because they break unit tests, and rates of first-shot
 detection per round (before any strengthening) were roughly 70 % (rounds 1-3),
 58 % (round 4, state across calls), 68 % (round 5, breadth) 25 % (round 6,
-written to evade a sampling checker) and 8 of 27 (round 7: seven of the first
+written to evade a sampling checker) and 14 of 39 (round 7: seven of the first
 fifteen were written against a mechanism that belongs to a neighbouring property
-and are caught there; the other twelve first-shot misses led to the strengthenings
+and are caught there; the other first-shot misses led to the strengthenings
 listed under `-r7-`): the strengthened generators are what
 `seeded/HISTORY.json` lists. The last column records the changes that the first version of a
 check missed and what was strengthened (`seeded/HISTORY.json`); the table shows
